@@ -814,6 +814,26 @@ fn run_stress_phases(cx: &mut Cx) {
     let thorough = cx.thorough;
     let t0 = std::time::Instant::now();
     cx.stress_pairs();
+    // host API alphabet (Rust threads next to script threads) and torn multi-entry reads: exact check
+    let (n_host, n_torn, rounds_h) = if thorough { (400, 240, 1500) } else { (40, 24, 600) };
+    for i in 0..n_host {
+        if cx.deadlocks >= 2 {
+            break;
+        }
+        let mut r = cx.rng.fork();
+        let s = gen_host(&mut r, i % 2 == 0, [2usize, 3, 4, 6, 8][i % 5], rounds_h);
+        cx.rep.bump(&format!("host_history={}", s.kind));
+        cx.stress_small(&s);
+    }
+    for i in 0..n_torn {
+        if cx.deadlocks >= 2 {
+            break;
+        }
+        let mut r = cx.rng.fork();
+        let s = gen_torn_eq(&mut r, i % 3 != 2, [6usize, 40, 12][i % 3], rounds_h);
+        cx.rep.bump(&format!("torn_eq_history={}", s.kind));
+        cx.stress_small(&s);
+    }
     let t_pairs = t0.elapsed().as_secs_f64();
     let t0 = std::time::Instant::now();
     selftest(cx);
@@ -974,8 +994,11 @@ fn replay_known(cx: &mut Cx) {
             }
         }
     }
-    // nested read guards on one cell: deadlock witnesses, each in its own arc runner, in parallel
-    let cases: Vec<DeadlockCase> = deadlock_cases(30000).into_iter().filter(|c| cx.rep.known_entries().iter().any(|e| e["id"].as_str() == Some(c.id))).collect();
+    // nested read guards on one cell: deadlock witnesses, each in its own arc runner, in parallel;
+    // plus the same-operand family (both operands of a binary operation are the shared container),
+    // which is not tied to a finding: a hang there is a VIOLATION
+    let mut cases: Vec<DeadlockCase> = deadlock_cases(30000).into_iter().filter(|c| cx.rep.known_entries().iter().any(|e| e["id"].as_str() == Some(c.id))).collect();
+    cases.extend(same_operand_cases(if cx.thorough { 30000 } else { 12000 }));
     let arc_exe = cx.arc.exe.clone();
     let open = cx.open.clone();
     let results: Vec<(String, bool)> = std::thread::scope(|sc| {
@@ -1002,6 +1025,10 @@ fn replay_known(cx: &mut Cx) {
         let panicked = ans.contains("PANIC:") || ans.starts_with("DIED");
         if hung && known {
             cx.rep.known(c.id, "nested read guards on one cell: reader and writers hang under arc (runner killed by the 8 s watchdog)");
+        } else if hung && c.id.starts_with("same:") {
+            cx.d_fail += 1;
+            cx.rep.violation("D", &format!("C19:deadlock:{}", c.id), json!({"kind": "stress", "scripts": c.scripts,
+                "note": "DEADLOCK: a binary operation whose two operands are the same shared container, against two writers: no progress for 45 s (nested guards of one cell with a writer queued in between)"}));
         } else if hung {
             cx.d_fail += 1;
             cx.rep.violation("D", &format!("C19:regression:{}", c.id), json!({"kind": "stress", "scripts": c.scripts, "note": "DEADLOCK: a finding recorded as fixed hangs again (45 s without progress)"}));
